@@ -153,7 +153,7 @@ class C15(Prop):
             try:
                 res = ta.get_cuda_kernel_launch_stats(ranks=req, include_memory_events=case["mem"], visualize=False)
                 for r in req:
-                    stats = [{"corr": hta.ival(t[0]), "cpu": hta.ival(t[1]), "gpu": hta.ival(t[2]), "delay": hta.ival(t[3])}
+                    stats = [{"corr": hta.oval(t[0]), "cpu": hta.oval(t[1]), "gpu": hta.oval(t[2]), "delay": hta.oval(t[3])}
                              for t in res[r][["correlation", "cpu_duration", "gpu_duration", "launch_delay"]].itertuples(index=False)]
                     obs["ranks"].append({"rank": r, "file": file_entries(case, r), "rows": rows_full(ta, r), "stats": stats})
             except Exception as ex:
